@@ -35,6 +35,9 @@ ASSUMPTIONS = [
     "(1e-9 elsewhere)",
     "cells whose own target.logd is non-finite on the grid (GMRF neumann order 2, some N) cannot be judged and are "
     "counted as trivial",
+    "GMRF neumann/periodic log-determinants come from ARPACK (eigsh) whose start vector depends on process-global "
+    "state: which of the order-2 neumann sub-cases are non-finite may differ between runs (counts vary by a few, "
+    "verdict signatures do not)",
     "ConjugateApprox and the Regularized* pairs are outside the statement (approximate by design) and not judged",
     "values of t outside the grid (and, for the clipped dependences, outside the extended grid) are not covered",
 ]
